@@ -317,7 +317,27 @@ def eigvals(m):
 
 
 def eig(m):
-    raise Unsupported("eig of a general matrix")
+    """general eigendecomposition, modelled for (exactly) Hermitian input only: opaque real eigenvalues (NO order assumed) and opaque
+    eigenvectors, functions of the matrix; natively evaluated by numpy.linalg.eig.  Nothing about (w, V) is assumed."""
+    m = _A(m)
+    n = m.shape[0]
+    for i in range(n):
+        for j in range(n):
+            a, b = NP._S(m.a[i, j]), NP._S(m.a[j, i]).conjugate()
+            if not a.same(b):
+                raise Unsupported("eig of a matrix that is not (syntactically) Hermitian")
+    if _is_concrete(m):
+        w, V = _np.linalg.eig(_numeric(m))
+        return _from_numeric(w.real, _F), _from_numeric(V, _C)
+    w, decomp, key = _eig_symbols(m, "eig", hermitian=False)
+    V = NP.zeros((n, n), _C)
+    I = Sym.const(1j)
+    for i in range(n):
+        for j in range(n):
+            re = Sym.of_id(T.defined("opaque", ("eig", "Vre", key, i, j), (lambda env, i=i, j=j: decomp(env)[1][i, j].real, ())))
+            im = Sym.of_id(T.defined("opaque", ("eig", "Vim", key, i, j), (lambda env, i=i, j=j: decomp(env)[1][i, j].imag, ())))
+            V.a[i, j] = re + I * im
+    return w, V
 
 
 def svd(m, *a, **k):
